@@ -140,7 +140,9 @@ def agent_for_socks_port(reactor, torconfig, socks_config, pool=None,
         ``BrowserLikePolicyForHTTPS`` is used.
     """
     socks_config = str(socks_config)  # sadly, all lists are lists-of-strings to Tor :/
-    if socks_config not in torconfig.SocksPort:
+    # Tor's lines can carry options after the port ("9050 IsolateDestAddr")
+    wanted = socks_config.split()[0]
+    if not any(port.split()[0] == wanted for port in torconfig.SocksPort):
         txtorlog.msg("Adding SOCKS port '{}' to Tor".format(socks_config))
         torconfig.SocksPort.append(socks_config)
         try:
